@@ -579,6 +579,10 @@ func runReplay(path string) int {
 			for _, l := range f.Events {
 				fmt.Println("  ", l)
 			}
+			if f.Rendering != nil {
+				rb, _ := json.MarshalIndent(f.Rendering, "", " ")
+				fmt.Printf("case as replayed:\n%s\n", rb)
+			}
 			fmt.Printf("VIOLATION property=%s replay=%s\n", rf.Property, path)
 			return 1
 		}
